@@ -661,6 +661,10 @@ def Pool.engageAt (p : Pool) (base size elemsz : Nat) : Pool :=
 def engageAtP (m : Links) (head base size elemsz : Nat) : Links :=
   engageLoopP elemsz (base + size) head (size + 1) base m
 
+/-- the two `assert`s of `pool_engage` (after `fix: pool_engage() asserts that a cell can hold the
+free-list link`): `assert(elemsz >= sizeof(struct slist_head)); assert(size % elemsz == 0);` -/
+def engageRefused (size elemsz : Nat) : Bool := elemsz < 8 || size % elemsz != 0
+
 structure Zone where
   base : Nat
   size : Nat
@@ -694,13 +698,13 @@ structure MState where
 
 def MState.init : MState := ⟨Pool.init, [], []⟩
 
-/-- `none` = outside the property: `pool_engage` with `elemsz = 0` or
-`size % elemsz ≠ 0` (the `assert`), a zone that overlaps a zone engaged before
+/-- `none` = outside the property: `pool_engage` refuses the zone (`engageRefused`: its two
+`assert`s), a zone that overlaps a zone engaged before
 (the same memory handed to the pool twice), `pool_free` of a cell that is not
 allocated -/
 def mstep (s : MState) : MOp → Option (MState × Option Nat)
   | .engage b sz e =>
-    if e = 0 ∨ sz % e ≠ 0 then none
+    if engageRefused sz e then none
     else if s.zones.all (Zone.disjoint ⟨b, sz, e⟩) then
       some (⟨s.pool.engageAt b sz e, s.live, ⟨b, sz, e⟩ :: s.zones⟩, none)
     else none
@@ -800,7 +804,7 @@ def sxstep (s : Nat) (p : SOPx) : SXOp → Option (SOPx × Option Nat)
   | .destroy c =>
     if p.sop.objs.contains c then some ({ p with sop := p.sop.destroy c, dtor := c :: p.dtor }, none) else none
   | .engage b n =>
-    if s = 0 then none
+    if engageRefused (n * s) s then none
     else if p.zones.all (Zone.disjoint ⟨b, n * s, s⟩) then
       some ({ p with sop := { p.sop with head := p.sop.head.engageAt b (n * s) s }, zones := ⟨b, n * s, s⟩ :: p.zones }, none)
     else none
